@@ -23,7 +23,8 @@ RULE = ("A case is a history over one fake node reached through the real Session
         "mid-history, borrow from a pool that is shut down; the 'v3trash' part starts with requests that time out past the "
         "orphan threshold next to live/never-answered ones (replacement with the old connection set aside), the "
         "'v1v2trash' part with a burst that grows a HostConnectionPool beyond its core size followed by the 10 s trash "
-        "interval.  The history ends with every held request answered, "
+        "interval, the 'v3refuse' part with a replacement (threshold reached or connection failed) whose first connect "
+        "attempts are refused and slow while further borrows arrive before the retry completes.  The history ends with every held request answered, "
         "Session/Cluster shutdown and enough virtual time for every pending connect to finish.  Non-trivial: a pool "
         "opened a connection after its first ones (replacement / growth) or set one aside (trash) before it was shut "
         "down, or a borrow was attempted on a shut-down pool.  Distinct by case digest.")
@@ -212,6 +213,46 @@ def s_v3trash():
     return SP.s_case(st, "c12", "blocking", [3, 4, 4, 5], mifs=(5, 8), thrs=(1, 1, 2), extra={"events": ev})
 
 
+def s_v3refuse():
+    """a HostConnection replacement (orphan threshold reached, or the connection failed) whose first connect
+    attempts are refused and whose connects take time, with borrows arriving while the retry is still pending"""
+    tail = st.one_of(
+        st.tuples(st.just("send"), st.sampled_from([0, 0, 3, 2])),
+        st.tuples(st.just("send"), st.sampled_from([0, 3])),
+        st.tuples(st.just("answer"), st.integers(0, 7), st.sampled_from(["rows", "rows", "void", "drop", "overloaded"])),
+        st.tuples(st.just("advance"), st.sampled_from([0.05, 0.35, 0.35, 0.75, 1.1])),
+        st.tuples(st.just("refuse"), st.integers(1, 2)),
+        st.tuples(st.just("kill"), st.integers(0, 2), st.sampled_from(["close", "reset"])),
+        st.tuples(st.just("session_shutdown")),
+    )
+
+    @st.composite
+    def build(draw):
+        case = draw(SP.s_case(st, "c12", "blocking", [3, 4, 4, 5], mifs=(5, 8), thrs=(1, 1, 2),
+                              extra={"events": st.just([]), "delay": st.just(0.0),
+                                     "convict": st.sampled_from([False, False, True])}))
+        thr = case["thr"]
+        d = draw(st.sampled_from([0.2, 0.6, 0.6]))
+        ev = []
+        if draw(st.booleans()) or True:
+            ev += [["send", 0]] * draw(st.integers(thr, thr + 1)) + [["send", 3]] * draw(st.integers(0, 2))
+        start = draw(st.sampled_from(["orphans", "orphans", "failure"]))
+        if start == "orphans":
+            ev += [["advance", 0.35]]
+        ev += [["delay", d], ["refuse", draw(st.integers(1, 2))]]
+        if start == "failure":
+            ev += [["kill", 0, draw(st.sampled_from(["close", "reset"]))]]
+        ev += [["send", draw(st.sampled_from([0, 3]))]]          # the borrow that starts the replacement
+        for _ in range(draw(st.integers(1, 3))):                 # borrows while attempts fail / the retry is pending
+            ev += [["advance", draw(st.sampled_from([d / 2, d + 0.05, d + 0.15, 0.35]))],
+                   ["send", draw(st.sampled_from([0, 3]))]]
+        ev += [["advance", draw(st.sampled_from([d + 0.1, 2 * d + 0.2, 2.5]))]]
+        ev += [list(e) for e in draw(st.lists(tail, max_size=8))]
+        case["events"] = ev
+        return case
+    return build()
+
+
 def parts(tier):
     return [
         hyp_part("v3plus", lambda: s_case("blocking", [3, 4, 4, 5]), interpret, tier, quick=110, thorough=1500,
@@ -219,6 +260,7 @@ def parts(tier):
         hyp_part("v1v2", lambda: s_case("blocking", [1, 2, 2]), interpret, tier, quick=90, thorough=1200,
                  quick_shards=3, thorough_shards=5),
         hyp_part("v3trash", s_v3trash, interpret, tier, quick=80, thorough=800, quick_shards=1, thorough_shards=2),
+        hyp_part("v3refuse", s_v3refuse, interpret, tier, quick=100, thorough=1000, quick_shards=1, thorough_shards=2),
         hyp_part("v1v2trash", s_trash, interpret, tier, quick=80, thorough=800, quick_shards=1, thorough_shards=2),
         hyp_part("locks", lambda: s_case("locks", [2, 3, 4, 4, 5], mifs=MIFS_LOCKS), interpret, tier, quick=50, thorough=700,
                  quick_shards=1, thorough_shards=3),
